@@ -252,12 +252,12 @@ func (u *epUp) Close() error { return nil }
 var _ upstream.Upstream = (*epUp)(nil)
 
 var (
-	epRegistry   sync.Map // key -> *epCall
-	epInflight   sync.Map // call id -> *epCall (Exec running)
-	epInflightN  atomic.Int64
-	epDelivered  atomic.Int64
-	epPackFails  atomic.Int64
-	epReceipts   atomic.Int64
+	epRegistry  sync.Map // key -> *epCall
+	epInflight  sync.Map // call id -> *epCall (Exec running)
+	epInflightN atomic.Int64
+	epDelivered atomic.Int64
+	epPackFails atomic.Int64
+	epReceipts  atomic.Int64
 	// set once a payload could not be matched with its call: receipts can no longer
 	// be attributed, so the per-call exchange counts / results are not judged
 	epMisattributed atomic.Bool
